@@ -797,4 +797,29 @@ theorem env_beats_load_partial (Wbuild Wload : World) (fuel : Nat) (s : Schema) 
   let _ := Wbuild
   C14.env_beats_load Wload fuel s path c k value rest doValidate n fs m hf x henv
 
+/-- **A set variable gives the field what assigning the same text gives** (the oracle of the C14 stream
+    `leaf_fields_and_blank_variables`): `k` is a leaf of a duplicate-free schema bound to a variable set to `text`, which its field
+    accepts as `v ≠ None`.  The configuration built in that world holds `v` under `k` — and so does ANY configuration of the
+    schema, in any world with the same file system (the variable set or not), reached by any history, after `k := text` is
+    assigned.  What differs is only the status: the built value counts as a default, the assigned one as user-defined.
+    (`hnn`: a text that validates to `None` falls back to the declared default at construction — `Field.__setdefault__` — while an
+    assignment stores the `None`; the stream's blank-variable cases sit exactly on that edge and are compared on the real code.) -/
+theorem env_equals_assignment (W W' : World) (hfe : W'.fe = W.fe) (fuel : Nat) (path : String) (linked : Bool) (keyfile : Option String)
+    (s : Schema) (n : Nat) (c0 : Cfg) (n0 : Nat) (hb : build W path linked keyfile s n = .ok (c0, n0)) (hnd : nodupKeys s.fields = true)
+    (k : String) (fs : FieldSpec) (m : LeafMeta) (hf : s.get k = some (.leaf fs m)) (text : Str) (v : Val)
+    (hk : usesBaseSetdefault fs.kind = true) (henv : envValue W m = some text)
+    (hv : validate W.fe.toEnv fs (.str text) = .ok v) (hnn : v ≠ .none) (cn : Cfg × Nat) (pre : List KeyOp) :
+    c0.get k = (runOps W' (fuel + 1) s cn (pre ++ [.assign k (.str text)])).1.get k ∧
+    C12.defined c0 k = false ∧ C12.defined (runOps W' (fuel + 1) s cn (pre ++ [.assign k (.str text)])).1 k = true := by
+  have h0 := env_wins_fresh W path linked keyfile s n c0 n0 hb hnd k fs m hf text v hk henv hv hnn
+  have hv' : validate W'.fe.toEnv fs (.str text) = .ok v := by rw [hfe]; exact hv
+  have h1 := last_assignment_wins W' fuel s cn k fs m hf (.str text) v hv' pre [] (by simp) (by simp)
+  exact ⟨h0.1.trans h1.1.symm, h0.2, h1.2⟩
+
+/-- non-vacuity: the demonstration schema's `port`, bound to a variable set to `8080` — every hypothesis is met -/
+example : d0.get "port" =
+    (runOps demoW 2 demoSchema (d0, 1) ([] ++ [.assign "port" (.str "8080".toList)])).1.get "port" :=
+  (env_equals_assignment demoW demoW rfl 1 "" false none demoSchema 0 d0 1 demo_fresh demo_nodup "port"
+    portSpec portMeta get_port "8080".toList (.int 8080) demo_base demo_env demo_validates (by simp) (d0, 1) []).1
+
 end Cinco.C14b
